@@ -25,6 +25,9 @@ var coreStrings = []string{
 	`a|'`, `error|can't|fatal`, `x|',string,'`,
 	// accepted by identifier slots, still meaningful to SQL
 	`select`, `OR`, `a--b`, `x.y-z`, `sleep`, `x__1`,
+	// a UTF-8 lead byte directly before a quote or a backslash (an escaper that copies "multi-byte characters" by the
+	// length their first byte announces skips what follows)
+	"\xe2' OR 1=1 --", "\xf0\x9f'", "\xc3\\", "\xe2\x80'",
 	// a number, then more (slots that take numbers)
 	`1 OR 1=1`, `500) OR (1=1`, `27`, `1e3; --`,
 }
